@@ -70,7 +70,8 @@ DoWrite(n) ==
   /\ obj.alg = 5 /\ nops < MaxOps /\ mlen + n <= 3 * BSof(obj.ciph) + 2
   /\ mlen' = mlen + n
   /\ UNCHANGED <<obj, par, lastLen>>
-  /\ Step([op |-> "write", data |-> Hx!FromBytes(SubSeq(Msg(par, mlen + n), mlen + 1, mlen + n))])
+  /\ Step([op |-> "write", data |-> Hx!FromBytes(SubSeq(Msg(par, mlen + n), mlen + 1, mlen + n)),
+           exp |-> Hx!FromBytes(TagOf(obj, Msg(par, mlen + n)))])       \* the tag after this write: every transition is observed
 DoSum ==
   /\ obj.alg = 5 /\ nops < MaxOps
   /\ UNCHANGED <<obj, mlen, par, lastLen>>
@@ -79,7 +80,7 @@ DoReset ==
   /\ obj.alg = 5 /\ nops < MaxOps /\ mlen > 0
   /\ mlen' = 0 /\ par' = 1 - par /\ lastLen' = mlen
   /\ UNCHANGED obj
-  /\ Step([op |-> "reset"])
+  /\ Step([op |-> "reset", exp |-> Hx!FromBytes(TagOf(obj, <<>>))])
 
 Next == \/ \E n \in MacLens : DoMAC(n)
         \/ \E n \in WriteLens : DoWrite(n)
